@@ -5,6 +5,8 @@
    ends the same way.  Nothing else is in this file. *)
 From Coq Require Import ZArith List.
 From V Require Import Valid.Hier Valid.Walk Valid.FlatRegion Valid.Run.
+From Coq Require Import Lia.
+From V Require Import Model.Pipe Model.PipeBounded Model.PipeBounded4.
 
 Theorem C01_checker_sound :
   forall rw g h, c01_check rw g h = true -> PathEq rw g h.
@@ -26,3 +28,23 @@ Proof.
   intros rows g h Hd. destruct (run_instance_sound rows g h Hd) as [A [B _]]. split; assumption.
 Qed.
 Print Assumptions C01_driver_columns.
+
+(* bounded form over the MODEL of the whole pipeline (Model/Pipe.v, tied to the code by exact
+   correspondence): for every closed graph with at most 4 blocks the model completes each stage
+   and both walks of its result are path-equivalent to the input, for all decision lists *)
+Theorem C01_pipeline_model_le4 :
+  forall n g, (n <= 4)%nat -> In g (closed_graphs n) ->
+    exists s0 s1 s2,
+      p_stage nmU 0 (init_state g) topU = POk s0 /\ p_stage nmU 1 s0 topU = POk s1 /\
+      p_stage nmU 2 s1 topU = POk s2 /\
+      (forall s, s = s0 \/ s = s1 \/ s = s2 ->
+         PathEq false (orig_of g) (to_hier s topU) /\ PathEq true (orig_of g) (to_hier s topU)).
+Proof.
+  intros n g Hn Hin. destruct (pipeline_good_le4 n g Hn Hin) as [s0 [s1 [s2 [A0 [B0 [A1 [B1 [A2 B2]]]]]]]].
+  exists s0, s1, s2. split; [exact A0|]. split; [exact A1|]. split; [exact A2|].
+  intros s Hs. destruct Hs as [Hs|[Hs|Hs]]; subst s.
+  - split; apply B0.
+  - split; apply B1.
+  - split; apply B2.
+Qed.
+Print Assumptions C01_pipeline_model_le4.
